@@ -327,8 +327,9 @@ def digits_of(t, base_bits, ndigits):
     ent = ENG.digitcache.get(key)
     if ent is None:
         B = 1 << base_bits
-        ds = [ENG.fresh("d") for _ in range(ndigits)]
-        hi = ENG.fresh("dh")
+        dg = hashlib.md5(t.sexpr().encode()).hexdigest()[:10]
+        ds = [z3.Int("d%d_%s_%d" % (ndigits, dg, i)) for i in range(ndigits)]
+        hi = z3.Int("dh%d_%s" % (ndigits, dg))
         for d in ds:
             ENG.add_axiom(z3.And(d >= 0, d < B))
         horner = hi
@@ -429,6 +430,11 @@ def _concrete_mask_op(s, o, kind):
         return ~_as_symint(_concrete_mask_op(s, ~o, "xor"))      # s ^ o = ~(s ^ ~o)
     if o == 0:
         return 0 if kind == "and" else s
+    if kind == "and" and o == 255 and s._sh is not None and s._sh[1] % 8 == 0:
+        # (v >> 8j) & 255 : the j-th base-256 digit of v (serialisers); exact skolem characterisation
+        j = s._sh[1] // 8
+        ds, hi, _ = digits_of(s._sh[0], 8, max(32, j + 1))
+        return SymInt(ds[j])
     L = o.bit_length()
     bs, hi, _ = bits_of(s.t, L)
     if kind == "and":
@@ -479,11 +485,12 @@ def _as_symint(x):
 
 
 class SymInt:
-    __slots__ = ("t", "_bit")
+    __slots__ = ("t", "_bit", "_sh")
 
     def __init__(self, t):
         self.t = t
         self._bit = None
+        self._sh = None          # (original term, shift count) when this value is `orig >> count`
 
     # arithmetic
     def __add__(s, o):
@@ -604,8 +611,12 @@ class SymInt:
         if s._bit is not None and s._bit[0] == n:
             return SymInt(s._bit[1])
         if n == 0:
-            return s
-        return SymInt(s.t / z3.IntVal(1 << n))
+            r = SymInt(s.t)
+            r._sh = (s.t, 0)
+            return r
+        r = SymInt(s.t / z3.IntVal(1 << n))
+        r._sh = (s.t, n)
+        return r
 
     def __lshift__(s, n):
         if type(n) in (SymInt, SymBool):
